@@ -337,6 +337,8 @@ func (fr *Frame) sentinelFacts(g *ssa.Global, v Val) {
 	if fr.fx.E.sentinel[g] && len(v.L) == 2 {
 		id := fr.fx.E.globalID(g)
 		fr.fx.assert(and(eq(v.L[0], fmt.Sprint(fr.fx.E.typeID("*errors.errorString"))), eq(v.L[1], fmt.Sprint(500000+id))))
+		// a sentinel made by errors.New wraps nothing
+		fr.fx.assert(eq("(wrapTyp "+fmt.Sprint(500000+id)+")", "0"))
 	}
 }
 
